@@ -6,6 +6,3 @@ package config
 func VerifProcessRawConfig(raw RawConfig, shared *Config) (*Config, error) {
 	return processRawConfig(raw, shared)
 }
-
-// VerifCompareDomainID calls the unexported compareDomainID.
-func VerifCompareDomainID(a, b interface{}) bool { return compareDomainID(a, b) }
